@@ -23,6 +23,7 @@ Translated (fail-closed -- any statement / expression outside the small subset b
                         Channel.set_combine_stderr     (shape: moves the stderr buffer, no window field)
                         Channel.shutdown/_send_eof/shutdown_write (shape: half-close only sets eof_sent)
                         Channel.__init__               (the six flow-control fields start at 0)
+                        every Channel method              (no transport send inside a channel-lock region)
 * paramiko/*.py         FLOW_SITES: the exact set of functions that assign in_window_sofar / in_window_threshold /
                         in_window_size / out_window_size / out_max_packet_size or mention _check_add_window /
                         _wait_for_send_window / _send / _set_window / _set_remote_channel; any other writer or
@@ -368,6 +369,38 @@ def _flow_sites(repo):
     return found
 
 
+def _no_send_under_lock(ccls):
+    """No Channel method calls transport._send_user_message (which may block during a re-key) inside a
+    `self.lock.acquire(); try: ... finally: self.lock.release()` region, nor does a function documented as
+    running under the lock (_check_add_window's body, _wait_for_send_window, _send_eof, _close_internal,
+    _set_closed)."""
+    def sends(nodes):
+        for n in nodes:
+            for x in ast.walk(n):
+                if isinstance(x, ast.Attribute) and x.attr in ("_send_user_message", "_send_message"):
+                    return True
+        return False
+    for fn in ccls.body:
+        if not isinstance(fn, ast.FunctionDef):
+            continue
+        if fn.name in ("_wait_for_send_window", "_send_eof", "_close_internal", "_set_closed") and sends(fn.body):
+            raise Unrecognised("%s (runs under the channel lock) sends a message" % fn.name)
+        for node in ast.walk(fn):
+            body = getattr(node, "body", None)
+            if not isinstance(body, list):
+                continue
+            for i, st in enumerate(body):
+                if (isinstance(st, ast.Expr) and isinstance(st.value, ast.Call)
+                        and ast.unparse(st.value) == "self.lock.acquire()"
+                        and i + 1 < len(body) and isinstance(body[i + 1], ast.Try)):
+                    if sends(body[i + 1].body):
+                        raise Unrecognised("Channel.%s sends a message while holding the channel lock" % fn.name)
+        for node in ast.walk(fn):
+            if isinstance(node, ast.With) and any(ast.unparse(it.context_expr) in ("self.lock", "self.out_buffer_cv")
+                                                  for it in node.items) and sends(node.body):
+                raise Unrecognised("Channel.%s sends a message while holding the channel lock" % fn.name)
+
+
 SET_COMBINE_BODY = [
     "old = self.combine_stderr",
     "self.combine_stderr = combine",
@@ -583,6 +616,8 @@ def generate(repo):
     w("(* recv / recv_stderr: ack = _check_add_window(len(out)); `if ack > 0:` send WINDOW_ADJUST(ack) *)")
     w("Definition adjust_is_sent (ack : Z) : bool := %s." % tests[0])
     w("")
+
+    _no_send_under_lock(ccls)
 
     # Channel.__init__: all flow-control fields start at 0
     fn = _find_fn(ccls.body, "__init__")
